@@ -61,3 +61,30 @@ Proof.
   destruct (d_default d); [|contradiction]. rewrite Hdv, Ht. reflexivity.
 Qed.
 Print Assumptions C08_generated_default_test_fails.
+
+(* --- the macro against the rule book, for EVERY declaration of the grammar ---------------- *)
+From NV Require Import Lemmas.ReferenceLemmas.
+
+(* everything the book forbids is refused -- except the recorded class, characterised exactly:
+   both exclusive bounds are literals and no value lies strictly between them
+   (integers: less = greater + 1; floats: adjacent values) *)
+Theorem C08_reject_sound :
+  forall (ft : features) (sd : sdecl) (fam : family) (p : parsed),
+    parse_meta (sd_item sd) = Accept fam -> parse_attrs ft fam (sd_attr sd) = Accept p ->
+    forall d, full_verdict ft sd = Accept d ->
+    ref_verdict ft (sd_item sd) fam p regex_oracle = "1" \/
+    (ref_verdict ft (sd_item sd) fam p regex_oracle = "0:literal_bounds" /\
+     recorded_class fam (std_validators p)).
+Proof. exact macro_sound_wrt_book. Qed.
+Print Assumptions C08_reject_sound.
+
+(* every declaration the book admits is accepted, outside the conditions that are rustc's
+   (typing of bound expressions, const-fn bodies) and the recorded "well-formed but refused"
+   classes collected in [extra_ok] *)
+Theorem C08_accept_complete :
+  forall (ft : features) (sd : sdecl) (fam : family) (p : parsed),
+    parse_meta (sd_item sd) = Accept fam -> parse_attrs ft fam (sd_attr sd) = Accept p ->
+    ref_ok ft (sd_item sd) fam p regex_oracle = true -> extra_ok ft sd fam p = true ->
+    exists d, full_verdict ft sd = Accept d.
+Proof. exact book_complete_outside_recorded. Qed.
+Print Assumptions C08_accept_complete.
